@@ -3,18 +3,92 @@ package checks
 import (
 	"bytes"
 	"fmt"
+	"reflect"
+	"strings"
 
 	"verif/internal/gen"
+	"verif/internal/schema"
 	"verif/internal/val"
 )
 
 func init() { Registry["C15"] = c15 }
 
-var dirtyNames = []string{"populated-object(longer lists, other union member)", "previously-decoded-other-image", "after-failed-truncated-decode"}
+var dirtyNames = []string{"populated-object(longer lists, other union member)", "previously-decoded-other-image", "after-failed-truncated-decode",
+	"aliased-sub-objects(one nested object shared by every list entry and nested part)", "near-miss(the fresh result with every fixed text padded on its pad side and lists one longer)"}
+
+// aliasParts makes every object-list entry of v (and every nested pointer part of the same type) point to ONE shared object.
+func aliasParts(e *Env, t *schema.Type, v reflect.Value) {
+	for i := range t.Fields {
+		f := &t.Fields[i]
+		fv := v.FieldByName(f.Name)
+		switch f.Kind {
+		case "objlist":
+			if fv.Len() == 0 {
+				continue
+			}
+			shared := fv.Index(0)
+			for k := 1; k < fv.Len(); k++ {
+				fv.Index(k).Set(shared)
+			}
+			for j := range t.Fields {
+				g := &t.Fields[j]
+				if g.Kind == "struct" && !g.Value && g.Type == f.Type {
+					v.FieldByName(g.Name).Set(shared)
+				}
+			}
+		case "struct":
+			if !f.Value && !fv.IsNil() {
+				aliasParts(e, e.S.Lookup(t.Pkg, f.Type), fv.Elem())
+			}
+		case "union":
+			if !fv.IsNil() {
+				if bt := e.C.TypeOf(fv.Interface()); bt != nil {
+					aliasParts(e, bt, fv.Elem().Elem())
+				}
+			}
+		}
+	}
+}
+
+// nearMiss perturbs v (a clone of the fresh result) into something a shortcut might mistake for "unchanged":
+// fixed texts get pad bytes on their pad side, lists get one more entry.
+func nearMiss(e *Env, t *schema.Type, v reflect.Value) {
+	for i := range t.Fields {
+		f := &t.Fields[i]
+		fv := v.FieldByName(f.Name)
+		switch f.Kind {
+		case "fixstr":
+			pad := strings.Repeat(string([]byte{byte(f.Pad)}), 3)
+			if f.Left {
+				fv.SetString(pad + fv.String())
+			} else {
+				fv.SetString(fv.String() + pad)
+			}
+		case "pstr":
+			fv.SetString(fv.String() + " ")
+		case "list", "objlist":
+			if fv.Len() > 0 {
+				fv.Set(reflect.Append(fv, fv.Index(fv.Len()-1)))
+			}
+		case "struct":
+			if f.Value {
+				nearMiss(e, e.S.Lookup(t.Pkg, f.Type), fv)
+			} else if !fv.IsNil() {
+				nearMiss(e, e.S.Lookup(t.Pkg, f.Type), fv.Elem())
+			}
+		case "union":
+			if !fv.IsNil() {
+				if bt := e.C.TypeOf(fv.Interface()); bt != nil {
+					nearMiss(e, bt, fv.Elem().Elem())
+				}
+			}
+		}
+	}
+}
 
 func c15(e *Env) {
 	r := e.R
-	r.Rule("every type × images (even cases: valid images of canonical values; odd cases: token-level wire images incl. all-pad text and zero counts; every 5th: images with 1..4 mutated bytes, accepted or not) × 3 dirty receivers: an object populated with longer lists / another union member / non-nil nested parts, an object that already decoded a different image, an object left behind by a failed decode of a truncated image. distinct_nontrivial = distinct (image hash, dirty kind) where the dirty receiver really differed from the fresh result before the decode")
+	r.Rule("every type × images (even cases: valid images of canonical values; odd cases: token-level wire images incl. all-pad text and zero counts; every 5th: images with 1..4 mutated bytes, accepted or not) × 5 dirty receivers: an object populated with longer lists / another union member / non-nil nested parts, an object that already decoded a different image, an object left behind by a failed decode of a truncated image, an object whose list entries and nested parts all alias ONE shared sub-object, and a near miss of the expected result (every fixed text padded on its pad side, prefixed texts one byte longer, lists one entry longer). distinct_nontrivial = distinct (image hash, dirty kind) where the dirty receiver really differed from the fresh result before the decode")
 	r.Explain("Oracle: Decode(image) into a fresh object and into each dirty receiver agree on accept/reject, and on accept the two messages are ≡ (strict: list lengths, union member type, nested parts); additionally the same number of bytes is consumed.")
 	types := e.Types()
 	n := e.N(200, 8000)
@@ -49,7 +123,7 @@ func c15(e *Env) {
 			if fp != nil {
 				continue // C09's business
 			}
-			for dk := 0; dk < 3; dk++ {
+			for dk := 0; dk < 5; dk++ {
 				g2 := &gen.Gen{S: e.S, C: e.C, R: gen.NewRng(e.Seed, "C15", t.QName, ci, "dirty", dk), O: &gen.Opts{Lens: []int{2, 3, 17}}}
 				var dirty any
 				switch dk {
@@ -65,6 +139,15 @@ func c15(e *Env) {
 						w = w[:1+g2.R.Intn(len(w)-1)]
 					}
 					LibDecode(dirty, bytes.NewBuffer(append([]byte(nil), w...)))
+				case 3:
+					dirty = g2.Value(t)
+					aliasParts(e, t, reflect.ValueOf(dirty).Elem())
+				case 4:
+					if ferr != nil {
+						continue
+					}
+					dirty = val.Clone(fresh)
+					nearMiss(e, t, reflect.ValueOf(dirty).Elem())
 				}
 				differed := ferr == nil && val.Equal(fresh, dirty) != ""
 				before := val.Summary(dirty, 300)
